@@ -55,8 +55,8 @@ ASSUMES = [
     "values contain no newline and no tilde; names match [A-Za-z_][A-Za-z0-9_]*; one simple command per operation",
 ]
 
-TRACKED = ["A", "B", "C", "D", "HOME", "IFS", "PWD", "REPLY"]
-NAMES = ["A", "B", "C", "D"]
+TRACKED = ["A", "B", "AB", "A_1", "HOME", "IFS", "PWD", "REPLY"]
+NAMES = ["A", "B", "AB", "A_1"]   # AB and A_1 extend the name A: a prefixed command `A=v prog` must not touch them (seed C09-prefix-env-filter-drops-name-prefixed-vars)
 US, RS = "\x1f", "\x1e"
 
 VALUES = ["1", "2", "abc", "x y", "", "a=b", "p:q", "it's", 'say "hi"', " lead", "trail ", "a  b", "=", ":", "'", '"',
